@@ -37,6 +37,9 @@ def gen_cases(ctx):
                 cases.append((cfg, G.rand_ops(rng, cfg, rng.randint(2, 6))))
     for _ in range(1500 if ctx.quick else 20000):
         cfg = G.rand_config(rng, maxblocks=5)
+        if rng.random() < 0.3:       # some predicates raise on some events (any exception class): runs that finish
+            G.add_raises(rng, cfg)   # on that very event must still leave the active set and be announced
+            cfg["mode"] = dict(exc=rng.choice(["KeyError", "IndexError", "AttributeError", "ValueError", "RuntimeError", "UserError"]))
         if rng.random() < 0.25:      # some notifications are refused by a later subscriber (the caller carries on)
             cfg = dict(cfg, refuse=sorted(rng.sample(range(12), 2)))
         cases.append((cfg, G.rand_ops(rng, cfg, rng.randint(3, 10 if ctx.quick else 25))))
@@ -63,6 +66,10 @@ def work(case):
         if lists is None:
             if op[0] == "remote" and fail is None:
                 fail = SD.remote_raise_failure(dec, k)
+            elif op[0] == "local" and fail is None and "BoboDeciderError" not in getattr(dec, "verif_error", ""):
+                fail = dict(signature="exception-escaped-decider", step=k, detail=None,
+                            what="%s escaped BoboDecider.update(): runs that finished on this event stay in the active set "
+                                 "unannounced" % getattr(dec, "verif_error", "an exception"))
             break
         comp, halt, upd = lists
         after = {}
